@@ -169,6 +169,10 @@ func nhTakePanics() []string {
 type nhEndpoint struct {
 	handler raftio.MessageHandler
 	chunks  raftio.ChunkHandler
+	// like a real transport, Close returns only when no handler call is in flight any more
+	// and none is started afterwards (NodeHost.Close tears the engine down right after it)
+	mu     sync.RWMutex
+	closed bool
 }
 
 // nhNet never fabricates or duplicates a message: a batch handed to SendMessageBatch is either
@@ -207,6 +211,7 @@ func (f *nhTransportFactory) Validate(string) bool { return true }
 
 type nhTransport struct {
 	net  *nhNet
+	ep   *nhEndpoint
 	addr string
 	h    raftio.MessageHandler
 	ch   raftio.ChunkHandler
@@ -216,14 +221,21 @@ func (t *nhTransport) Name() string { return "verif-inproc" }
 func (t *nhTransport) Start() error {
 	t.net.mu.Lock()
 	defer t.net.mu.Unlock()
-	t.net.eps[t.addr] = &nhEndpoint{handler: t.h, chunks: t.ch}
+	t.ep = &nhEndpoint{handler: t.h, chunks: t.ch}
+	t.net.eps[t.addr] = t.ep
 	return nil
 }
 func (t *nhTransport) Close() error {
 	t.net.mu.Lock()
-	defer t.net.mu.Unlock()
-	if ep, ok := t.net.eps[t.addr]; ok && fmt.Sprintf("%p", ep.handler) == fmt.Sprintf("%p", t.h) {
+	ep := t.ep
+	if cur, ok := t.net.eps[t.addr]; ok && cur == ep {
 		delete(t.net.eps, t.addr)
+	}
+	t.net.mu.Unlock()
+	if ep != nil {
+		ep.mu.Lock()
+		ep.closed = true
+		ep.mu.Unlock()
 	}
 	return nil
 }
@@ -299,7 +311,11 @@ func (c *nhConn) SendMessageBatch(batch pb.MessageBatch) error {
 		if ep == nil || bad {
 			return
 		}
-		ep.handler(b)
+		ep.mu.RLock()
+		if !ep.closed {
+			ep.handler(b)
+		}
+		ep.mu.RUnlock()
 	}
 	if delay == 0 {
 		deliver()
@@ -334,6 +350,11 @@ func (c *nhConn) SendChunk(chunk pb.Chunk) error {
 	var cc pb.Chunk
 	if err := cc.Unmarshal(data); err != nil {
 		panic(err)
+	}
+	ep.mu.RLock()
+	defer ep.mu.RUnlock()
+	if ep.closed {
+		return fmt.Errorf("verif: link down")
 	}
 	if !ep.chunks(cc) {
 		return fmt.Errorf("verif: chunk rejected")
